@@ -142,10 +142,17 @@ def has_ref(e):
     return e[0] in ("pref", "bref") or (e[0] == "slice" and has_ref(e[1])) or (e[0] == "cat" and any(has_ref(p) for p in e[1]))
 
 
-def export_bits(widths, expr, port_width):
-    """Connect expr to a port of port_width, export, and read the bits back (LSB first)."""
+def export_bits(widths, expr, port_width, probes=()):
+    """Connect expr to a port of port_width, export, and read the bits back (LSB first).
+    probes: expressions that are built and asked for their width first, in the same module, any error being caught - a designer
+    trying an index out at the prompt before settling on the right one."""
     h = H()["h"]
     c = Ctx(widths)
+    for pe in probes:
+        try:
+            c.build(pe).width
+        except Exception:
+            pass
     X = h.ExternalModule(name="T%d" % port_width, port_list=[h.Input(name="a", width=port_width)], domain="verif")
     conn = c.build(expr)
     c.m.add(X()(a=conn), name="dut")
@@ -237,6 +244,20 @@ def check_case(case):
             out.append(("accepted_invalid:%s" % kind, "%s was exported (as %s) though Python selects nothing / raises IndexError" % (label, got)))
         elif got != expected:
             out.append(("wrong_bits:%s:%s" % (kind, parent[0]), "%s exported bits %s, Python selects %s" % (label, got, expected)))
+        if expected is not None and got == expected and pw == len(expected) and not strided_parent(parent):
+            # rejected (or accepted) trial indices on the same parent, tried first, must leave no trace
+            probes = [["slice", parent, w + 3], ["slice", parent, [w + 1, w + 1, None]], ["slice", parent, -(w + 2)], ["slice", parent, 0]]
+            try:
+                gotp = export_bits(widths, expr, pw, probes=probes)
+                if gotp != expected:
+                    out.append(("probing_changes_bits:%s" % parent[0], "%s after trial indices on the same parent exported %s, Python selects %s" % (label, gotp, expected)))
+            except pkgread.PkgError as e:
+                out.append(("bit_outside_signal:after_probe", "%s after trial indices exported a bit outside its signal: %s" % (label, e)))
+            except Exception as e:
+                out.append(("probing_breaks_elaboration:%s:%s" % (parent[0], type(e).__name__), "%s exports alone, but after out-of-range / empty trial indices on the same parent "
+                            "(errors caught) elaboration raised %s: %s" % (label, type(e).__name__, str(e)[-200:])))
+        if expected is None or got != expected:
+            pass
         elif pw == len(expected) and pw >= 2:
             # the same selection handed out element-wise by an instance array: resolution down to signal-level bits must
             # still give element k the k-th group of selected bits
